@@ -217,29 +217,43 @@ func genCall(r *rand.Rand, reg []string, tcp bool, tokenBody string) Call {
 		c.Body = ""
 	}
 	c.OpClient = r.Intn(3) == 0
-	switch k := r.Intn(20); {
-	case k < 10:
-	case k < 19:
+	switch k := r.Intn(40); {
+	case k < 18:
+	case k < 32:
 		c.OpCtx = "live"
-	default:
+	case k < 36:
+		c.OpCtx = "far" // a deadline hours away: as good as live
+	case k < 38:
 		c.OpCtx = "cancelled"
+	default:
+		c.OpCtx = "expired" // a deadline in the past
+	}
+	switch r.Intn(8) {
+	case 0:
+		c.Timeout = "zero"
+	case 1:
+		c.Timeout = "hours"
 	}
 	return c
 }
 
 func genRtCtx(r *rand.Rand) string {
-	switch k := r.Intn(20); {
-	case k < 12:
+	switch k := r.Intn(40); {
+	case k < 18:
 		return "live"
-	case k < 19:
+	case k < 22:
+		return "far"
+	case k < 32:
 		return "nil"
-	default:
+	case k < 36:
 		return "cancelled"
+	default:
+		return "expired"
 	}
 }
 
 func genSeq(r *rand.Rand, tcp bool) *Case {
-	c := &Case{TCP: tcp, RtCtx: genRtCtx(r)}
+	c := &Case{TCP: tcp, RtCtx: genRtCtx(r), Debug: r.Intn(6) == 0}
 	c.Registry, c.DefaultMT = genRegistry(r)
 	c.Calls = []Call{genCall(r, c.Registry, tcp, "")}
 	return c
@@ -248,16 +262,21 @@ func genSeq(r *rand.Rand, tcp bool) *Case {
 var concSizes = []int{4, 6, 8, 12, 16, 24, 32, 48, 64}
 
 func genConc(r *rand.Rand, tcp bool) *Case {
-	c := &Case{TCP: tcp, RtCtx: "live"}
-	if r.Intn(4) == 0 {
+	c := &Case{TCP: tcp, RtCtx: "live", TokenBody: true}
+	switch r.Intn(8) {
+	case 0, 1:
 		c.RtCtx = "nil"
+	case 2:
+		c.RtCtx = "far"
+	case 3:
+		c.RtCtx = "expired" // calls with a context of their own must not feel it; the others must all fail
 	}
 	c.Registry, c.DefaultMT = genRegistry(r)
 	n := concSizes[r.Intn(len(concSizes))]
 	c.Conc = &Conc{Procs: []int{1, 4, 16}[r.Intn(3)], SchedSeed: r.Int63n(1 << 40)}
 	for i := 0; i < n; i++ {
-		call := genCall(r, c.Registry, tcp, "t")
-		if call.OpCtx == "cancelled" && r.Intn(2) == 0 {
+		call := genCall(r, c.Registry, tcp, "")
+		if dead(call.OpCtx) && r.Intn(2) == 0 {
 			call.OpCtx = "live"
 		}
 		call.Rounds = 1 + r.Intn(2)
@@ -268,8 +287,9 @@ func genConc(r *rand.Rand, tcp bool) *Case {
 
 func run(m *mon.M) {
 	r := m.Rand("cases")
-	for i := 0; i < m.N(24, 240); i++ {
-		od := &OpDefaults{Kind: "op-client-defaults", OpJar: i&1 != 0, Warm: i&2 != 0, OpTransport: i&4 != 0, OpCtx: []string{"", "background", "todo"}[(i/8)%3]}
+	for i := 0; i < m.N(40, 400); i++ {
+		od := &OpDefaults{Kind: "op-client-defaults", OpJar: i&1 != 0, Warm: i&2 != 0, OpTransport: i&4 != 0, OpCtx: []string{"", "background", "todo", "background", "todo"}[(i/8)%5]}
+		od.RtExpired = (i/8)%5 >= 3
 		m.Begin(od)
 		runOpDefaults(m, od)
 	}
